@@ -27,6 +27,7 @@ func Abs(ctx *expr.Context, input system.Collection, args ...expr.Expression) (s
 		return nil, fmt.Errorf("%w: received %v arguments, expected 0", ErrWrongArity, len(args))
 	}
 
+	input = systemValues(input)
 	switch input[0].(type) {
 	case system.Integer:
 		// Input type conversion to int32
@@ -76,6 +77,7 @@ func Ceiling(ctx *expr.Context, input system.Collection, args ...expr.Expression
 	if len(args) != 0 {
 		return nil, fmt.Errorf("%w: received %v arguments, expected 0", ErrWrongArity, len(args))
 	}
+	input = systemValues(input)
 	// Decimals are rounded exactly: a float64 cannot hold every Decimal
 	if d, ok := input[0].(system.Decimal); ok && input.IsSingleton() {
 		return decimalToInteger(decimal.Decimal(d).Ceil()), nil
@@ -129,6 +131,7 @@ func Floor(ctx *expr.Context, input system.Collection, args ...expr.Expression) 
 	if len(args) != 0 {
 		return nil, fmt.Errorf("%w: received %v arguments, expected 0", ErrWrongArity, len(args))
 	}
+	input = systemValues(input)
 	// Decimals are rounded exactly: a float64 cannot hold every Decimal
 	if d, ok := input[0].(system.Decimal); ok && input.IsSingleton() {
 		return decimalToInteger(decimal.Decimal(d).Floor()), nil
@@ -361,6 +364,7 @@ func Truncate(ctx *expr.Context, input system.Collection, args ...expr.Expressio
 	if len(args) != 0 {
 		return nil, fmt.Errorf("%w: received %v arguments, expected 0", ErrWrongArity, len(args))
 	}
+	input = systemValues(input)
 	// Decimals are rounded exactly: a float64 cannot hold every Decimal
 	if d, ok := input[0].(system.Decimal); ok && input.IsSingleton() {
 		return decimalToInteger(decimal.Decimal(d).Truncate(0)), nil
@@ -376,6 +380,20 @@ func Truncate(ctx *expr.Context, input system.Collection, args ...expr.Expressio
 		return system.Collection{}, nil
 	}
 	return system.Collection{system.Integer(result)}, nil
+}
+
+// systemValues replaces the FHIR primitive elements among the items (a decimal,
+// integer or Quantity reached by navigation) by their System values, which is what
+// the functions above work on; an item that has no System value stays as it is.
+func systemValues(input system.Collection) system.Collection {
+	values := make(system.Collection, len(input))
+	for i, item := range input {
+		values[i] = item
+		if value, err := system.From(item); err == nil {
+			values[i] = value
+		}
+	}
+	return values
 }
 
 // decimalToInteger converts an integral decimal to a System Integer; the result
